@@ -678,10 +678,11 @@ def gen_res():
     oddcss = ('.q1 { font: 12px / } .q2 { font: 12px /; color: red } .q3 { font: / ahem } .q4 { string-set: a content(), ; bookmark-label: , } .q5 { margin: 1px 2px 3px 4px 5px; padding: / } '
               '@page :nth(of a) { margin: 1px } @page :nth( ) { margin: 1px } @page :nth(2n + ) { margin: 2px } @page x:first:first:blank { size: } .q6 { transform: rotate() scale(,) ; grid-area: / / / ; content: counter() counters(,) attr() } '
               '.q7 { background: url( ; } .q8 { quotes: "a"; font-family: , ; counter-reset: a b c 1 2 ; transition: } @media { p { color: blue } } @media ( { } @font-face { src: ; unicode-range: u+ } @counter-style { } @counter-style x { system: ; symbols: ; additive-symbols: 0 }\n'
+              '.q16 { font-size: 2ex } .q17 { font-size: 1ch } .q18 { font-size: 1.5rem; width: 3ex; height: 2ch; line-height: 2ex } @font-face { font-family: ff1; src: format("woff") } @font-face { font-family: ff2; src: format() } @font-face { font-family: ff3; src: local() format("truetype"), url() } '
               '.q9 { font: normal } .q10 { font: normal normal normal normal } .q11 { font: italic } .q12 { font: normal small-caps } '
               'html { --cy: var(--cy); --ca: var(--cb); --cb: var(--ca, 3px); --ok: 5px; --d: var(--d, 4px) } .q13 { width: var(--cy); margin-left: var(--ca); padding-left: var(--d) } '
               '.q14 { margin-left: calc(1px + calc(var(--ok))); background: linear-gradient(rgb(var(--ok), 0, 0), blue); border-left: var(--none, var(--ok)) solid } .q15 { margin: var(--cy) var(--ok) var() var(1) var(--) }\n')
-    body = ("<style>%s</style><p>%s</p>" % (oddcss, pars) + '<table><colgroup span="99999999999999"></colgroup><colgroup><col span="99999999999999"><col span="1001"></colgroup><tr><td class="q1 q2 q3 q4 q5 q6 q7 q8 q9 q10 q11 q12 q13 q14 q15">o000</td></tr></table>' +'<table><colgroup><col span="0"><col span="x"></colgroup><tr><td colspan="0">o001</td><td rowspan="0">o002</td><td colspan="abc" rowspan="-1">o003</td><td colspan="1000">o004</td></tr><tr><td>o005</td></tr></table>'
+    body = ("<style>%s</style><p>%s</p>" % (oddcss, pars) + '<table><colgroup span="99999999999999"></colgroup><colgroup><col span="99999999999999"><col span="1001"></colgroup><tr><td class="q1 q2 q3 q4 q5 q6 q7 q8 q9 q10 q11 q12 q13 q14 q15">o000</td><td class=q16>o0a</td><td class=q17>o0b</td><td class=q18>o0c</td></tr></table>' +'<table><colgroup><col span="0"><col span="x"></colgroup><tr><td colspan="0">o001</td><td rowspan="0">o002</td><td colspan="abc" rowspan="-1">o003</td><td colspan="1000">o004</td></tr><tr><td>o005</td></tr></table>'
             '<ol start="x" reversed><li value="z">o006</li><li>o007</li></ol><ol start="-3"><li>o008</li></ol>'
             '<p><img src="odd.svg" alt="alt1" width="-" height="1e"> <img src="odd.svg" width="0" height="0" alt="alt2"> <font size="+9" color="#zz">o009</font> <font size="">o010</font></p>'
             '<hr size="x" width="50%%"><pre width="0">o011</pre><p align="bogus" dir="x" lang="">o012</p>' + text)
@@ -765,7 +766,7 @@ def gen_hyph():
     # a dictionary with NON-STANDARD hyphenation points (hungarian "vissza" breaks as "visz-sza"): the lookup rewrites
     # the word around the break, from data held in the process-wide dictionary cache
     css = page_css(200, 150, 10) + "html, body { margin: 0; font-family: ahem; font-size: 10px; line-height: 10px }\np { margin: 0 0 10px 0; hyphens: auto; width: 50px }\n"
-    body = '<p lang="hu">visszaemlekezesekkel</p><p lang="hu">asszonnyal visszavonhatatlanul hosszabbitassal</p><p lang="en">hyphenation</p><p lang="en">aa extraordinary</p><p lang="en">extra&shy;ordinary hyphenation extraordinary&shy;ly long</p>'
+    body = '<p lang="hu">visszaemlekezesekkel</p><p lang="hu">asszonnyal visszavonhatatlanul hosszabbitassal</p><p lang="en">hyphenation</p><p lang="en">aa extraordinary</p><p lang="en">extra&shy;ordinary hyphenation extraordinary&shy;ly long</p><p lang="en">hyphenation a</p><p lang="en">abcdefgh --</p><p lang="en">circumstances !</p><p lang="en">consideration &#x2026;</p>'
     scenario("hyph-05", "hyph", doc(css, body), expect=dict(page_w=200, page_h=150, margin=True, group="hyph"), engines=["pango", "gotext"])
 
 
@@ -1448,27 +1449,26 @@ def gen_wave4():
         scenario("oof-%d" % n, "oof", doc(css, "\n".join(body)), expect=dict(flows=flows, margin=True, page_w=220, page_h=106, conserve=True, line_height=12))
 
     # oof-19: fixed and absolute boxes inside blocks that are cancelled and moved to the next page (break-inside: avoid,
-    # orphans / widows): each fixed box is drawn once per page, each absolute box once
-    css = page_css(220, 106, 10) + BASE + "p { margin: 0; orphans: 2; widows: 2 }\n.av { break-inside: avoid }\n.fx { position: fixed; top: 0; left: 150px }\n.fy { position: fixed; top: 12px; left: 150px }\n.ab { position: absolute; left: 150px }\n"
+    # orphans / widows): each fixed box is drawn once per page, each absolute box once. 7 lines per page; every case starts
+    # a page, F filler lines, then a 3-line block whose FIRST line holds the positioned box and which does not fit
+    css = page_css(220, 106, 10) + BASE + "p { margin: 0; orphans: 2; widows: 2 }\n.av { break-inside: avoid }\n.np { break-before: page }\n.fx { position: fixed; top: 0; left: 150px }\n.fy { position: fixed; top: 12px; left: 150px }\n.ab { position: absolute; left: 150px }\n"
     body, flow = [], []
     wi = 1
     rep = []
     flows = {}
-    for k, fill in enumerate([3, 4, 5, 2]):
-        for _ in range(fill):
+    for k, fill in enumerate([5, 6, 5, 6, 4]):
+        for j in range(fill):
             ws = words("w", 3, wi); wi += 3; flow += ws
-            body.append(para(ws))
+            body.append(para(ws, 'class=np' if j == 0 else ""))
         ws = words("w", 9, wi); wi += 9; flow += ws
         if k == 0:
-            extra = '<div class=fx>x001</div>'; rep.append("x001")
+            extra = '<span class=fx>x001</span>'; rep.append("x001")
         elif k == 1:
             extra = '<span class=fy>y001</span>'; rep.append("y001")
         else:
             extra = '<span class=ab>a%03d</span>' % k; flows["abs%d" % k] = ["a%03d" % k]
-        if k % 2 == 0:
-            body.append('<div class=av><p>%s<br>%s<br>%s %s</p></div>' % (" ".join(ws[:3]), " ".join(ws[3:6]), " ".join(ws[6:]), extra))
-        else:
-            body.append('<p>%s %s<br>%s<br>%s</p>' % (" ".join(ws[:3]), extra, " ".join(ws[3:6]), " ".join(ws[6:])))
+        inner = '<p>%s %s<br>%s<br>%s</p>' % (" ".join(ws[:3]), extra, " ".join(ws[3:6]), " ".join(ws[6:]))
+        body.append(('<div class=av>%s</div>' % inner) if k % 2 == 0 else inner)
     flows["main"] = flow
     scenario("oof-19", "oof", doc(css, "\n".join(body)), expect=dict(flows=flows, repeat=rep, repeat_once_per_page=True, margin=True, page_w=220, page_h=106, conserve=True, line_height=12))
 
@@ -1515,7 +1515,10 @@ def gen_wave4():
     noratio = '<svg xmlns="http://www.w3.org/2000/svg"><rect width="5" height="5"/></svg>'
     onlyw = '<svg xmlns="http://www.w3.org/2000/svg" width="30"><rect width="5" height="5"/></svg>'
     gifs = {"g00.gif": "R0lGODlhAAAAAAAAADs=", "g05.gif": "R0lGODlhAAAFAAAAADs=", "g50.gif": "R0lGODlhBQAAAAAAADs="}
-    files = {"nr.svg": (noratio, dict(mime="image/svg+xml", kind="svg")), "ow.svg": (onlyw, dict(mime="image/svg+xml", kind="svg"))}
+    onlyh = '<svg xmlns="http://www.w3.org/2000/svg" height="20"><rect width="5" height="5"/></svg>'
+    emb = ('<svg xmlns="http://www.w3.org/2000/svg" xmlns:xlink="http://www.w3.org/1999/xlink" width="60" height="40"><image href="ow.svg" width="20" height="10"/><image href="ow.svg" x="5"/><image href="oh.svg" y="5"/>'
+           '<image href="nr.svg" x="10"/><image href="oh.svg" width="7"/><image xlink:href="ow.svg" height="7"/><image href="g05.gif" x="3"/><image href="g50.gif"/><image href="g00.gif" width="4"/></svg>')
+    files = {"nr.svg": (noratio, dict(mime="image/svg+xml", kind="svg")), "ow.svg": (onlyw, dict(mime="image/svg+xml", kind="svg")), "oh.svg": (onlyh, dict(mime="image/svg+xml", kind="svg")), "emb.svg": (emb, dict(mime="image/svg+xml", kind="svg"))}
     for fn, b64 in gifs.items():
         files[fn] = (base64.b64decode(b64), dict(mime="image/gif", kind="image"))
     css = page_css(300, 220, 10) + BASE + (".mh { min-height: 10px } .xh { max-height: 8px } .mw { min-width: 10px } .xw { max-width: 8px } .ib { display: inline-block } .fl { float: left } .ab { position: absolute; left: 200px }\n"
@@ -1527,7 +1530,7 @@ def gen_wave4():
             imgs.append('<img class="%s" src="%s" alt="">' % (cls, src))
     allimgs = "".join(imgs)
     body = (para(W[:4]) + '<span class=ib>%s</span><div class=fl>%s</div><div style="clear:both"></div><table><tr><td>%s</td></tr></table><div class=ab>%s</div>' % (allimgs, allimgs, allimgs, "".join(imgs[:8])) +
-            '<div class=fx>%s<span>%s</span></div><div class=gr>%s<span>%s</span></div>' % ("".join(imgs[::3]), W[4], "".join(imgs[1::3]), W[5]) + para(W[6:]))
+            '<div class=fx>%s<span>%s</span></div><div class=gr>%s<span>%s</span></div>' % ("".join(imgs[::3]), W[4], "".join(imgs[1::3]), W[5]) + '<p><img src="emb.svg" alt="em01"> <img src="oh.svg" alt="em02" class=mw></p>' + para(W[6:]))
     scenario("res-19", "res", doc(css, body), files=files, expect=dict(margin=True, page_w=300, page_h=220, line_height=12, sentinels=W))
 
     # feat-16: url() and other image values where no image can be used: string-set, bookmark-label, content of margin boxes
@@ -1539,6 +1542,18 @@ def gen_wave4():
     scenario("feat-16", "feat", doc(css, '<h2>h001</h2>' + para(W[:10]) + '<h2>h002</h2><ul><li>%s</li></ul>' % W[10] + para(W[11:])),
              files={"dot.png": (png(2, 2, (1, 2, 3)), dict(mime="image/png", kind="image"))},
              expect=dict(margin=True, page_w=240, page_h=150, line_height=12, sentinels=W + ["h001", "h002"]))
+
+    # edge-*: ONE absurd but legal value per document (several in one flow hide each other: after a box of 1e20px nothing else
+    # is laid out where it would be). Sizes and offsets around 1e20, through CSS and through legacy attributes
+    edge = [("width: 1e20px", None), ("margin-left: -1e20px", None), ("font-size: 1e-20px", None), ("text-indent: -1e20px", None), ("display: grid; grid-template-columns: 1e20px 1fr", None),
+            ("float: left; width: 1e20px", None), ("display: table; border-spacing: -1e20px", None), (None, '<table cellspacing="-99999999999999999999"><tr><td>e001 e002</td></tr></table>'),
+            (None, '<table width="99999999999999999999"><tr><td>e001 e002</td></tr></table>'), ("transform: scale(1e20)", None), ("line-height: 1e20", None), ("columns: 1000000000", None),
+            ("letter-spacing: 1e20px", None), ("padding-left: 1e20px", None)]
+    for i, (decl, html_) in enumerate(edge, start=1):
+        W = words("w", 8)
+        mid = html_ if html_ else '<div style="%s">e001 e002</div>' % decl
+        scenario("edge-%02d" % i, "edge", doc(page_css(220, 150, 10) + BASE, para(W[:4]) + mid + para(W[4:])),
+                 expect=dict(margin=True, page_w=220, page_h=150, line_height=12, sentinels=W[:4], legacy_attrs=bool(html_)))
 
 def gen_reach():
     # documents aimed at range-over-map sites the evidence listed as never visited with >= 2 keys
